@@ -34,6 +34,11 @@ pub struct St {
     pub abort: bool,
     /// how often thread t was granted a step since the shared state last changed while it is in the waiting loop
     pub sticky: Option<usize>,
+    /// adversary of the wait-freedom claim: thread `.0` is frozen once it has taken `.1` steps, for as long as any other
+    /// thread has not finished its program
+    pub freeze: Option<(usize, usize)>,
+    pub steps: Vec<usize>,
+    pub counted: usize,
 }
 
 pub static ST: Mutex<Option<St>> = Mutex::new(None);
@@ -64,8 +69,25 @@ pub fn lock() -> std::sync::MutexGuard<'static, Option<St>> {
     }
 }
 
+fn frozen(st: &St, t: usize) -> bool {
+    match st.freeze {
+        Some((ft, k)) => ft == t && st.steps[t] >= k && (0..st.nthreads).any(|u| u != ft && !st.done[u]),
+        None => false,
+    }
+}
+
 /// chooses the thread that takes the next step, if it can be decided now
 fn pick(st: &mut St) {
+    pick_inner(st);
+    if let Some(t) = st.turn {
+        if st.chosen.len() > st.counted {
+            st.counted = st.chosen.len();
+            st.steps[t] += 1;
+        }
+    }
+}
+
+fn pick_inner(st: &mut St) {
     if st.turn.is_some() {
         return;
     }
@@ -89,12 +111,12 @@ fn pick(st: &mut St) {
             if !live_all_arrived {
                 return;
             }
-            if let Some(t) = (0..st.nthreads).find(|&t| !st.done[t] && st.waiting[t]) {
+            if let Some(t) = (0..st.nthreads).find(|&t| !st.done[t] && st.waiting[t] && !frozen(st, t)) {
                 // rotate to be fair among waiting threads
                 let t = match st.sticky {
                     Some(last) => (1..=st.nthreads)
                         .map(|k| (last + k) % st.nthreads)
-                        .find(|&u| !st.done[u] && st.waiting[u])
+                        .find(|&u| !st.done[u] && st.waiting[u] && !frozen(st, u))
                         .unwrap_or(t),
                     None => t,
                 };
@@ -111,7 +133,7 @@ fn pick(st: &mut St) {
             if !live_all_arrived {
                 return;
             }
-            let cands: Vec<usize> = (0..st.nthreads).filter(|&t| !st.done[t] && st.waiting[t]).collect();
+            let cands: Vec<usize> = (0..st.nthreads).filter(|&t| !st.done[t] && st.waiting[t] && !frozen(st, t)).collect();
             if cands.is_empty() {
                 return;
             }
@@ -207,7 +229,7 @@ pub fn record(line: String) {
     }
 }
 
-pub fn install(mode: Mode, nthreads: usize, sched: Vec<usize>, seed: u64, budget: usize) {
+pub fn install(mode: Mode, nthreads: usize, sched: Vec<usize>, seed: u64, budget: usize, freeze: Option<(usize, usize)>) {
     let mut g = lock();
     *g = Some(St {
         mode,
@@ -225,6 +247,9 @@ pub fn install(mode: Mode, nthreads: usize, sched: Vec<usize>, seed: u64, budget
         budget,
         abort: false,
         sticky: None,
+        freeze,
+        steps: vec![0; nthreads],
+        counted: 0,
     });
 }
 
